@@ -196,6 +196,7 @@ func (o hOpts) model(monitors ...hMonitor) seqx.Model {
 			req := *e.Req
 			sid := resolveCookie(w, req.Cookie)
 			req.Cookie = sid
+			req.CookieOther = resolveCookie(w, req.CookieOther)
 			req.Path = resolvePath(w, req.Path)
 			o := &hObs{Event: e, Req: req, SID: sid, Now: w.Now()}
 			if live {
@@ -338,6 +339,10 @@ func (o hOpts) model(monitors ...hMonitor) seqx.Model {
 				for _, c2 := range all {
 					if c2 != own {
 						add(cb, c2)
+						if o.OddCookies && own != "" && c2 != "" && c2 != "!" {
+							// the victim's cookie (c2) first, the owner's session id smuggled behind a comma in another cookie's value
+							base = append(base, seqx.Event{Kind: "req", Req: &world.Req{Path: cb, Cookie: c2, CookieOther: own, CookieForm: "{C}; theme=dark,{N}={O}"}})
+						}
 					}
 				}
 				if own != "" {
@@ -519,6 +524,19 @@ func (o hOpts) model(monitors ...hMonitor) seqx.Model {
 				if is := w.IdP.Issued[g.Tokens.IDToken]; is != nil {
 					fmt.Fprintf(&sb, "%s:%v;", sid, is.Exp.Sub(w.Now()))
 				}
+			}
+		}
+		// the reference's own book-keeping is state too: two histories may leave the store alike and the reference
+		// different - exactly when the service has lost track of something
+		for _, sid := range w.Gen.SIDs {
+			if b, ok := w.Store.Born[sid]; ok && (w.Spec.Abs > 0 || w.Spec.Idle > 0) {
+				fmt.Fprintf(&sb, "|born:%s:%v", sid, w.Now().Sub(b))
+			}
+			if by := w.Store.RemovedBy[sid]; by != "" {
+				fmt.Fprintf(&sb, "|removed:%s:%s", sid, by)
+			}
+			if g := w.Store.Ghost[sid]; g != nil {
+				fmt.Fprintf(&sb, "|ghost:%s:%v:%v", sid, g.Tokens != nil, g.State != nil)
 			}
 		}
 		stale := false
